@@ -6,6 +6,7 @@
      sysconst A, B, R         -> SysConstOK (C08): the SYSTEM_CONSTANT lists of MOD_PAR
      cleanup  G, R, R2        -> CleanupOK, CleanupIdempotent (C10)
      check    G, reports, thisOk -> CheckOK (C11)
+     check2   G, G1, reports  -> the same for a file with two MODULEs (union of the expected reports)
    The events are independent; a failing event prints <<"FAILED", conjunct>> lines followed by
    <<"REJECT", index>> and the validation continues with the next event. *)
 EXTENDS Graph, Json, IOUtils
@@ -44,6 +45,13 @@ Verdict(ev) ==
             /\ Chk("NoPanic", ev.panic = FALSE)
             /\ Chk("Pure", ev.pure = TRUE)
             /\ CheckOK(ev.G, Range(ev.reports), AsSet3(ev.comps), {<<ev.this[i][1], ev.this[i][2]>> : i \in 1..Len(ev.this)})
+      [] ev.ev = "check2" ->      \* one file with two MODULEs: the report of the file is the union of the modules' reports
+            LET E == ExpectedReports(ev.G, AsSet3(ev.comps), {<<ev.this[i][1], ev.this[i][2]>> : i \in 1..Len(ev.this)})
+                       \cup ExpectedReports(ev.G1, AsSet3(ev.comps1), {<<ev.this1[i][1], ev.this1[i][2]>> : i \in 1..Len(ev.this1)}) IN
+            /\ Chk("NoPanic", ev.panic = FALSE)
+            /\ Chk("Pure", ev.pure = TRUE)
+            /\ Chk("Sound", \A t \in Range(ev.reports) : t \in E)
+            /\ Chk("Complete", \A t \in E : t \in Range(ev.reports))
       [] OTHER -> Print(<<"FAILED", "unknown event">>, FALSE)
 
 TraceInit == l = 1
